@@ -12,7 +12,10 @@
 (*            largest ratio of in-memory size to encoded size of a state,   *)
 (*            computed by the harness from size_of::<State>() and the        *)
 (*            cheapest state encoding; it is a constant of the build, at    *)
-(*            most BudgetCap, and the bombs inflate to several times it)    *)
+(*            most BudgetCap, and the bombs inflate to several times it);   *)
+(*            a fixed valid string parsed right afterwards on the same      *)
+(*            thread (both parsers) still round-trips: the outcome of a     *)
+(*            parse depends on its input alone (after_ok)                   *)
 (***************************************************************************)
 EXTENDS Integers, Sequences, Json, IOUtils, TLC
 
@@ -26,6 +29,7 @@ Good(r) ==
   CASE r.k = "rt" -> /\ ~r.panic /\ r.ok /\ r.same_string /\ r.same_name /\ r.revalidates /\ r.same_actions
                      /\ r.budget <= BudgetCap /\ r.peak <= r.budget + 2 * r.len
     [] r.k = "hostile" -> /\ ~r.panic
+                          /\ r.after_ok      \* Codec: each parse starts from Init - nothing is carried from one input to the next
                           /\ (r.result = "err" \/ (r.result = "ok" /\ r.revalidates))
                           /\ (r.parser = "v2" => (r.budget <= BudgetCap /\ r.peak <= r.budget + 2 * r.len))
     [] OTHER -> TRUE
